@@ -7,9 +7,14 @@ from harness.core import LaneBase, hxedges, hxlist, hxlistlist
 
 
 def time_invariant(g):
+    """every edge is stored earlier -> later, judged both by the lags the nodes report and by the lags their
+    identifiers parse to (the two must agree, property C12; here either disagreement with time is a failure)"""
     bad = []
     for e in g.get_edges():
         ls, ld = e.source.time_lag, e.destination.time_lag
+        ps, pd = impl_parse(e.source.identifier), impl_parse(e.destination.identifier)
+        if ps > pd and not ls > ld:
+            ls, ld = ps, pd
         if ls > ld:
             kind = 'directed edge points backwards in time' if impl.ety(e) == '->' else 'non-directed edge stored later->earlier'
             bad.append(f'{kind}: {e.source.identifier!r} ({ls}) {impl.ety(e)} {e.destination.identifier!r} ({ld})')
@@ -123,7 +128,8 @@ class Lane(LaneBase):
             if case['via'] == 'cg':
                 ts = TimeSeriesCausalGraph.from_causal_graph(cg)
             else:
-                ts = TimeSeriesCausalGraph.from_dict(cg.to_dict())
+                import json
+                ts = TimeSeriesCausalGraph.from_dict(json.loads(json.dumps(cg.to_dict())))
             err = None
         except ValueError:
             ts, err = None, 'ValueError'
@@ -179,6 +185,11 @@ class Lane(LaneBase):
         if case.get('kind') == 'topo' and not case['nodes'] and 'return_all' in failure:
             return 'C13-D14-empty-graph-return_all'
         return 'C13:' + hashlib.sha1(failure[:60].encode()).hexdigest()[:12]
+
+    def widen(self, case):
+        if 'ops' in case and isinstance(case.get('ops'), list) and case.get('kind', 'hist') == 'hist':
+            return histories.widen_history(case)
+        return []
 
     def shrink(self, case, still_fails):
         if case.get('kind') == 'hist':
